@@ -230,6 +230,7 @@ func parseDefLine(line string) (odef, bool) {
 // expected answers come from the reference reading of the statement only.
 func (o *oracleRun) judge(lines []string) {
 	o.cases++
+	hx.Progress()
 	var defs []odef
 	c := &ocase{dp: dependency.NewProvider(app.DependencyTagName), calls: map[string]int{}, built: map[string]int{},
 		setObjs: map[int]*oObj{}}
@@ -594,6 +595,7 @@ func (o *oracleRun) precedence() {
 // through an optional edge; a long acyclic chain for contrast
 func (o *oracleRun) cycles(maxLen int) {
 	for k := 1; k <= maxLen; k++ {
+		hx.Progress()
 		o.cases++
 		o.evals["cycle_is_error"]++
 		fmt.Fprintf(o.w, "case cycle len=%d\n", k)
@@ -694,6 +696,7 @@ func oracle(n int) {
 	}
 	o.cycles(maxLen)
 	for i := 0; i < n; i++ {
+		hx.Progress()
 		o.randomCase(r)
 	}
 	keys := make([]string, 0, len(o.evals))
